@@ -73,16 +73,18 @@ def shapes():
     ico1 = A.icosphere(1, 0.2)
     tet = np.array(A.TETRA)
     octa = np.array(A.OCTA)
+    def big(t):     # size set 2: set 0 at metre scale (x12): centre distances > 1 length unit (scale-dependent early exits)
+        return tuple(12.0 * x for x in t)
     return {
-        "sphere": (S, [(0.1, 0, 0), (0.25, 0, 0)], None),
-        "capsule": (C, [(0.06, 0.2, 0), (0.15, 0.05, 0)], None),
-        "ellipsoid": (E, [(0.1, 0.15, 0.2), (0.25, 0.08, 0.12)], None),
-        "cylinder": (Y, [(0.12, 0.18, 0), (0.25, 0.04, 0)], None),
-        "box": (B, [(0.1, 0.15, 0.2), (0.3, 0.05, 0.12)], None),
-        "tetra": (M, [(0, 0, 0)] * 2, (tet, hull_faces(tet))),
-        "octa": (M, [(0, 0, 0)] * 2, (octa, hull_faces(octa))),
-        "ico": (M, [(0, 0, 0)] * 2, ico0),
-        "ico42": (M, [(0, 0, 0)] * 2, ico1),
+        "sphere": (S, [(0.1, 0, 0), (0.25, 0, 0), big((0.1, 0, 0))], None),
+        "capsule": (C, [(0.06, 0.2, 0), (0.15, 0.05, 0), big((0.06, 0.2, 0))], None),
+        "ellipsoid": (E, [(0.1, 0.15, 0.2), (0.25, 0.08, 0.12), big((0.1, 0.15, 0.2))], None),
+        "cylinder": (Y, [(0.12, 0.18, 0), (0.25, 0.04, 0), big((0.12, 0.18, 0))], None),
+        "box": (B, [(0.1, 0.15, 0.2), (0.3, 0.05, 0.12), big((0.1, 0.15, 0.2))], None),
+        "tetra": (M, [(0, 0, 0)] * 3, (tet, hull_faces(tet))),
+        "octa": (M, [(0, 0, 0)] * 3, (octa, hull_faces(octa))),
+        "ico": (M, [(0, 0, 0)] * 3, ico0),
+        "ico42": (M, [(0, 0, 0)] * 3, ico1),
     }
 
 
@@ -91,6 +93,7 @@ QUICK_PAIRS = [("capsule", "ellipsoid"), ("capsule", "cylinder"), ("capsule", "t
                ("cylinder", "box"), ("cylinder", "ico"), ("box", "tetra"), ("box", "ico"), ("tetra", "octa"), ("ico", "ico"),
                ("box", "box")]
 MESHES = ["tetra", "octa", "ico", "ico42"]
+BIG_QUICK = [("capsule", "ellipsoid"), ("capsule", "cylinder"), ("ellipsoid", "box")]
 
 
 def all_pairs():
@@ -416,6 +419,10 @@ def run(ctx):
                 tt = t1[:1] if order == 0 else t1[-1:]
                 for r in rots:
                     items.append((pr, si, order, tt, [r]))
+        # metre-scale size set for the primitive pairs (no mesh variants): quick 3 pairs x 2 rotations, thorough all x 5
+        if not (SHm[pr[0]][0] == M or SHm[pr[1]][0] == M) and (ctx.thorough or pr in BIG_QUICK):
+            for r in (rots[:5] if ctx.thorough else (0, 3)):
+                items.append((pr, 2, 0, t1[:1], [r]))
     core.pmap(ctx, _chunk, items, nchunks=min(len(items), 160))
     ctx.extra["models"] = len(items)
     ctx.rule = ("pairs %s x %d size set(s) x file order(s) (order 0 with the first placement, order 1 with the last) x first-geom placement %s x rotations %s x 5x5x5 relative positions "
